@@ -318,6 +318,264 @@ pub fn prop_udp(case: &UdpCase) -> CaseResult {
     Ok(o)
 }
 
+// ---- end to end: socket configurations ---------------------------------------------------------
+
+#[derive(Debug, Clone, Serialize, Deserialize)]
+pub struct E2eCase {
+    /// "udp-mio" | "udp-uring" | "http" | "http-proxy" | "ws"
+    pub tracker: String,
+    pub mode: crate::e2e::SocketMode,
+    pub port_a: u16,
+    pub port_b: u16,
+    pub victim: [u8; 4],
+}
+
+pub fn prop_e2e(c: &E2eCase) -> CaseResult {
+    use crate::codecs::*;
+    use crate::e2e::*;
+    use std::time::Duration;
+    let mut out = Outcome::default();
+    let v4_reachable = !matches!(c.mode, SocketMode::V6Only);
+    let v6_reachable = !matches!(c.mode, SocketMode::V4Only);
+    let mapped_sources = matches!(c.mode, SocketMode::DualStackV6);
+    let t5: IpAddr = "127.0.0.5".parse().unwrap();
+    let t6: IpAddr = "127.0.0.6".parse().unwrap();
+    let l6: IpAddr = "::1".parse().unwrap();
+    let timeout = Duration::from_secs(5);
+    match c.tracker.as_str() {
+        "udp-mio" | "udp-uring" => {
+            let uring = c.tracker == "udp-uring";
+            let tr = start_udp(|port| udp_config(port, c.mode, uring, 2)).map_err(|e| Violation::new("inconclusive-tracker-start", e))?;
+            let hash = [0x51u8; 20];
+            let talk = |cl: &UdpClient, req: &dyn Fn(i64) -> Vec<u8>, v4: bool| -> Result<URsp, Violation> {
+                cl.send(&bep15_encode_request(&UReq::Connect { tid: 1 })).map_err(|e| Violation::new("inconclusive-send", e))?;
+                let cid = match cl.recv(timeout).map(|(b, _)| bep15_decode_response(&b, true)) {
+                    Some(Ok(URsp::Connect { cid, .. })) => cid,
+                    other => return Err(Violation::new("no-reply", format!("connect from {} not answered: {:?}", cl.local, other))),
+                };
+                cl.send(&req(cid)).map_err(|e| Violation::new("inconclusive-send", e))?;
+                match cl.recv(timeout).map(|(b, _)| bep15_decode_response(&b, v4)) {
+                    Some(Ok(r)) => Ok(r),
+                    other => Err(Violation::new("no-reply", format!("request from {} not answered: {:?}", cl.local, other))),
+                }
+            };
+            let ann = |port: u16, victim: [u8; 4]| move |cid: i64| bep15_encode_request(&UReq::Announce { cid, tid: 2, info_hash: hash, peer_id: [3; 20], downloaded: 0, left: 1, uploaded: 0, event: 2, ip: victim, key: 0, numwant: 10, port });
+            let scrape = |cid: i64| bep15_encode_request(&UReq::Scrape { cid, tid: 3, hashes: vec![hash] });
+            if v4_reachable || mapped_sources {
+                // host 127.0.0.5 announces through a plain IPv4 socket and again (same announced
+                // port) through a dual-stack client socket bound to ::ffff:127.0.0.5
+                let a_plain = UdpClient::new(t5, tr.port).map_err(|e| Violation::new("inconclusive-client", e))?;
+                let a_dual = UdpClient::new(IpAddr::V6(std::net::Ipv4Addr::new(127, 0, 0, 5).to_ipv6_mapped()), tr.port).map_err(|e| Violation::new("inconclusive-client", e))?;
+                let b = UdpClient::new(t6, tr.port).map_err(|e| Violation::new("inconclusive-client", e))?;
+                // the tracker in DualStackV6 mode listens on [::]:port only; plain IPv4 clients reach it too
+                talk(&a_plain, &ann(c.port_a, c.victim), true)?;
+                talk(&a_dual, &ann(c.port_a, c.victim), true)?;
+                out.checks += 3;
+                match talk(&b, &ann(c.port_b, [0; 4]), true)? {
+                    URsp::Announce4 { peers, leechers, seeders, .. } => {
+                        vensure!(
+                            peers == vec![([127, 0, 0, 5], c.port_a)] && leechers == 1 && seeders == 0,
+                            "stored-address-wrong",
+                            "{} {:?}: a second client sees peers {:?} (leechers {leechers}); expected exactly 127.0.0.5:{} once (announced over plain IPv4 and over a dual-stack socket, in-request ip {:?})",
+                            c.tracker,
+                            c.mode,
+                            peers,
+                            c.port_a,
+                            c.victim
+                        );
+                    }
+                    other => vfail!("wrong-family-reply", "{} {:?}: IPv4 host got {:?}", c.tracker, c.mode, other),
+                }
+                if v6_reachable {
+                    let y = UdpClient::new(l6, tr.port).map_err(|e| Violation::new("inconclusive-client", e))?;
+                    match talk(&y, &scrape, false)? {
+                        URsp::Scrape { stats, .. } => vensure!(stats == vec![(0, 0, 0)], "families-mixed", "{} {:?}: a scrape from ::1 sees the IPv4 swarm: {:?}", c.tracker, c.mode, stats),
+                        other => vfail!("wrong-reply", "{:?}", other),
+                    }
+                    match talk(&y, &ann(c.port_b, c.victim), false)? {
+                        URsp::Announce6 { peers, .. } => vensure!(peers.is_empty(), "families-mixed", "{} {:?}: ::1 was handed IPv4 swarm members {:?}", c.tracker, c.mode, peers),
+                        other => vfail!("wrong-family-reply", "{} {:?}: ::1 got {:?}", c.tracker, c.mode, other),
+                    }
+                    match talk(&b, &scrape, true)? {
+                        URsp::Scrape { stats, .. } => vensure!(stats == vec![(0, 0, 2)], "families-mixed", "{} {:?}: IPv4 scrape after a ::1 announce: {:?}", c.tracker, c.mode, stats),
+                        other => vfail!("wrong-reply", "{:?}", other),
+                    }
+                    out.label("v6-client");
+                }
+                if mapped_sources {
+                    out.label("mapped-source");
+                }
+            } else {
+                let y = UdpClient::new(l6, tr.port).map_err(|e| Violation::new("inconclusive-client", e))?;
+                talk(&y, &ann(c.port_a, c.victim), false)?;
+                let y2 = UdpClient::new(l6, tr.port).map_err(|e| Violation::new("inconclusive-client", e))?;
+                out.checks += 1;
+                match talk(&y2, &ann(c.port_b, c.victim), false)? {
+                    URsp::Announce6 { peers, .. } => {
+                        let mut want = [0u8; 16];
+                        want[15] = 1;
+                        vensure!(peers == vec![(want, c.port_a)], "stored-address-wrong", "{} v6-only: peers {:?}", c.tracker, peers);
+                    }
+                    other => vfail!("wrong-family-reply", "{:?}", other),
+                }
+                out.label("v6-only");
+            }
+        }
+        "http" | "http-proxy" => {
+            let proxy = c.tracker == "http-proxy";
+            let tr = start_http(|port| {
+                let mut cfg = http_config(port, 2, 2);
+                match c.mode {
+                    SocketMode::Both => {}
+                    SocketMode::V4Only => cfg.network.use_ipv6 = false,
+                    SocketMode::V6Only => cfg.network.use_ipv4 = false,
+                    SocketMode::DualStackV6 => {
+                        cfg.network.use_ipv4 = false;
+                        cfg.network.set_only_ipv6 = false;
+                        cfg.network.address_ipv6 = std::net::SocketAddrV6::new(std::net::Ipv6Addr::UNSPECIFIED, port, 0, 0);
+                    }
+                }
+                cfg.network.runs_behind_reverse_proxy = proxy;
+                cfg
+            })
+            .map_err(|e| Violation::new("inconclusive-tracker-start", e))?;
+            let hs = "EEEEEEEEEEEEEEEEEEEE";
+            let announce = |from: IpAddr, port: u16, hdr: &str| -> Result<crate::codecs::Ben, Violation> {
+                let to: SocketAddr = if from.is_ipv4() { (std::net::Ipv4Addr::LOCALHOST, tr.port).into() } else { (std::net::Ipv6Addr::LOCALHOST, tr.port).into() };
+                let mut cl = HttpClient::connect(from, to).map_err(|e| Violation::new("inconclusive-connect", e))?;
+                let victim = std::net::Ipv4Addr::from(c.victim);
+                let req = format!("GET /announce?info_hash={hs}&peer_id=-TR2940-abcdefghijkl&port={port}&uploaded=0&downloaded=0&left=1&ip={victim}&ipv4={victim}&numwant=10 HTTP/1.1\r\nHost: x\r\n{hdr}\r\n");
+                cl.send_segments(&[req.as_bytes()]).map_err(|e| Violation::new("inconclusive-send", e))?;
+                match cl.read_reply(timeout) {
+                    HttpRead::Ok { body, .. } => ben_parse_strict(&body[..body.len().saturating_sub(2)]).map_err(|e| Violation::new("reply-malformed", e)),
+                    other => Err(Violation::new("no-reply", format!("{:?}", other))),
+                }
+            };
+            let peers_of = |t: &Ben| -> (Vec<u8>, Vec<u8>) {
+                match (t.get(b"peers"), t.get(b"peers6")) {
+                    (Some(Ben::Bytes(a)), Some(Ben::Bytes(b))) => (a.clone(), b.clone()),
+                    _ => (vec![0xff], vec![0xff]),
+                }
+            };
+            out.checks += 1;
+            if proxy {
+                // the proxy reports a mapped address for host A and a plain one for host B
+                let src: IpAddr = if v4_reachable || mapped_sources { t5 } else { l6 };
+                announce(src, c.port_a, "X-Forwarded-For: 198.51.100.9, ::ffff:10.1.2.3\r\n")?;
+                let r = announce(src, c.port_b, "X-Forwarded-For: 10.1.2.4\r\n")?;
+                let (p4, p6) = peers_of(&r);
+                let mut want = vec![10, 1, 2, 3];
+                want.extend_from_slice(&c.port_a.to_be_bytes());
+                vensure!(p4 == want && p6.is_empty(), "stored-address-wrong", "http reverse proxy {:?}: second client sees peers {:?} / peers6 {:?}; expected 10.1.2.3:{} (last address of the header, IPv4-mapped) in the IPv4 list", c.mode, p4, p6, c.port_a);
+                out.label("mapped-source");
+            } else if v4_reachable || mapped_sources {
+                announce(t5, c.port_a, "")?;
+                let r = announce(t6, c.port_b, "X-Forwarded-For: 9.9.9.9\r\n")?;
+                let (p4, p6) = peers_of(&r);
+                let mut want = vec![127, 0, 0, 5];
+                want.extend_from_slice(&c.port_a.to_be_bytes());
+                vensure!(p4 == want && p6.is_empty(), "stored-address-wrong", "http {:?}: second client sees peers {:?} / peers6 {:?}; expected 127.0.0.5:{} in the IPv4 list (ip=/ipv4= parameters and a proxy header without proxy mode must be ignored)", c.mode, p4, p6, c.port_a);
+                if v6_reachable {
+                    let r = announce(l6, c.port_b, "")?;
+                    let (p4, p6) = peers_of(&r);
+                    vensure!(p4.is_empty() && p6.is_empty(), "families-mixed", "http {:?}: ::1 was handed {:?} / {:?}", c.mode, p4, p6);
+                    out.label("v6-client");
+                }
+                if mapped_sources {
+                    out.label("mapped-source");
+                }
+            } else {
+                announce(l6, c.port_a, "")?;
+                let r = announce(l6, c.port_b, "")?;
+                let (p4, p6) = peers_of(&r);
+                let mut want = vec![0u8; 15];
+                want.push(1);
+                want.extend_from_slice(&c.port_a.to_be_bytes());
+                vensure!(p4.is_empty() && p6 == want, "stored-address-wrong", "http v6-only: {:?} / {:?}", p4, p6);
+                out.label("v6-only");
+            }
+        }
+        _ => {
+            use aquatic_ws_protocol::common::*;
+            use aquatic_ws_protocol::incoming::*;
+            use aquatic_ws_protocol::outgoing::OutMessage;
+            let dual = matches!(c.mode, SocketMode::DualStackV6);
+            let tr = start_ws(|port| {
+                let mut cfg = ws_config(port, 2, 2, dual || matches!(c.mode, SocketMode::V6Only));
+                cfg.network.only_ipv6 = matches!(c.mode, SocketMode::V6Only);
+                cfg
+            })
+            .map_err(|e| Violation::new("inconclusive-tracker-start", e))?;
+            let hash = InfoHash([0x52; 20]);
+            let text = |m: &InMessage| match m.to_ws_message() {
+                tungstenite::Message::Text(t) => t.as_str().to_string(),
+                _ => String::new(),
+            };
+            let connect = |from: IpAddr| -> Result<WsClient, Violation> {
+                let to: SocketAddr = if from.is_ipv4() { (std::net::Ipv4Addr::LOCALHOST, tr.port).into() } else { (std::net::Ipv6Addr::LOCALHOST, tr.port).into() };
+                WsClient::connect(from, to).map_err(|e| Violation::new("inconclusive-connect", e))
+            };
+            let announce = |cl: &mut WsClient, pid: u8| -> Result<(usize, usize), Violation> {
+                let m = InMessage::AnnounceRequest(AnnounceRequest { action: AnnounceAction::Announce, info_hash: hash, peer_id: PeerId([pid; 20]), bytes_left: Some(1), event: None, offers: None, numwant: None, answer: None, answer_to_peer_id: None, answer_offer_id: None });
+                cl.send_text(text(&m)).map_err(|e| Violation::new("inconclusive-send", e))?;
+                match cl.recv(timeout) {
+                    Ok(Some(m)) => match OutMessage::from_ws_message(m) {
+                        Ok(OutMessage::AnnounceResponse(r)) => Ok((r.complete, r.incomplete)),
+                        other => Err(Violation::new("wrong-reply", format!("{:?}", other))),
+                    },
+                    other => Err(Violation::new("no-reply", format!("{:?}", other.map(|_| ())))),
+                }
+            };
+            out.checks += 1;
+            let (first, second): (IpAddr, IpAddr) = if matches!(c.mode, SocketMode::V6Only) { (l6, l6) } else { (t5, t6) };
+            let mut a = connect(first)?;
+            let mut b = connect(second)?;
+            announce(&mut a, 1)?;
+            let counts = announce(&mut b, 2)?;
+            vensure!(counts == (0, 2), "families-mixed", "ws {:?}: two hosts of one family announcing one torrent see counts {:?}", c.mode, counts);
+            if dual {
+                // a real IPv6 client must not see the IPv4(-mapped) swarm
+                let mut y = connect(l6)?;
+                let counts = announce(&mut y, 3)?;
+                vensure!(counts == (0, 1), "families-mixed", "ws dual-stack: ::1 announcing sees counts {:?}; IPv4-mapped sources must form the IPv4 swarm, apart from the IPv6 one", counts);
+                out.label("mapped-source");
+                out.label("v6-client");
+            }
+        }
+    }
+    out.nontrivial = true;
+    out.label(&c.tracker);
+    Ok(out)
+}
+
+fn e2e_cases(seed: u64, tier: Tier) -> Vec<E2eCase> {
+    use crate::e2e::SocketMode::*;
+    let mut v = Vec::new();
+    let mut k = 0u64;
+    for rep in 0..tier.pick(1u64, 4) {
+        for (tracker, modes) in [
+            ("udp-mio", vec![Both, V4Only, V6Only, DualStackV6]),
+            ("udp-uring", vec![Both, V4Only, V6Only, DualStackV6]),
+            ("http", vec![Both, V4Only, V6Only, DualStackV6]),
+            ("http-proxy", vec![Both, DualStackV6]),
+            ("ws", vec![V4Only, V6Only, DualStackV6]),
+        ] {
+            for mode in modes {
+                k += 1;
+                let r = derive_seed(seed, "C03", "e2e", k * 10 + rep);
+                v.push(E2eCase {
+                    tracker: tracker.to_string(),
+                    mode,
+                    port_a: 1024 + (r % 60_000) as u16,
+                    port_b: 1024 + ((r >> 16) % 60_000) as u16,
+                    victim: [(r >> 32) as u8 | 1, (r >> 40) as u8, (r >> 48) as u8, (r >> 56) as u8 | 1],
+                });
+            }
+        }
+    }
+    v
+}
+
 pub fn run(ctx: &mut Ctx) {
     ctx.assume("the peer address handed to HTTP storage is computed in the harness exactly as connection.rs does (CanonicalSocketAddr::new(remote_addr) or header ip + TCP peer port); the real socket path is the e2e sub-check");
     ctx.assume("reverse-proxy mode with a missing/invalid header panics by documented design and is not generated; at most 16 headers");
@@ -336,12 +594,23 @@ pub fn run(ctx: &mut Ctx) {
     ctx.run_prop("udp-storage", t.pick(60_000, 1_000_000), move || udpdrv::udp_case(p, false), prop_udp);
     ctx.require_label("udp-storage", "mapped-source", 0.3);
     ctx.require_label("udp-storage", "nonzero-in-request-ip", 0.3);
+    ctx.confirm_runs = 2;
+    ctx.run_regress::<E2eCase, _>("e2e", prop_e2e);
+    let cases = e2e_cases(ctx.seed, t);
+    let saved = ctx.threads;
+    ctx.threads = saved.min(6);
+    ctx.run_enum("e2e", cases, false, prop_e2e);
+    ctx.threads = saved;
+    for l in ["mapped-source", "v6-client", "v6-only", "udp-mio", "udp-uring", "http", "http-proxy", "ws"] {
+        ctx.require_label("e2e", l, 0.05);
+    }
 }
 
 pub fn replay(path: &str, sub: &str, case: serde_json::Value) -> i32 {
     match sub {
         "canonical" => replay_one::<CanonCase, _>("C03", path, case, prop_canon),
         "header" => replay_one::<HeaderCase, _>("C03", path, case, prop_header),
+        "e2e" => replay_one::<E2eCase, _>("C03", path, case, prop_e2e),
         _ => replay_one::<UdpCase, _>("C03", path, case, prop_udp),
     }
 }
